@@ -641,6 +641,14 @@ def prove(hyps, goal, timeout_ms=10000, rounds=5, want_model=False, fallbacks=Tr
     forms = list(hyps) + [z3.Not(goal)]
     if not any(has_quant(f) for f in forms):
         return _prove(hyps, goal, timeout_ms, rounds, want_model, fallbacks)
+    first = None
+    if len(hyps) <= 24 and not focus:
+        # small obligations: the plain all-hypotheses pass is the cheapest thing to try
+        first = _prove(hyps, goal, timeout_ms, 3, want_model, False)
+        if TRACE:
+            print('   stage first(small)', len(hyps), first['status'], first.get('n_inst'), round(time.time() - t0, 1), flush=True)
+        if first['status'] == 'proved' or not fallbacks:
+            return first
     # goal-directed stage: only instances built from the negated goal's own skolem constants (and what the instances derive from them);
     # kills the quadratic noise of pairwise facts over unrelated terms.  Any set of instances is sound.
     try:
@@ -683,9 +691,10 @@ def prove(hyps, goal, timeout_ms=10000, rounds=5, want_model=False, fallbacks=Tr
         qs.add(z3.Not(goal))
         if qs.check() == z3.unsat:
             return {'status': 'proved', 'backend': 'z3-quant(using)', 'secs': time.time() - t0, 'n_inst': 0, 'model': None}
-    first = _prove(hyps, goal, timeout_ms, 3, want_model, False)
-    if TRACE:
-        print('   stage first', len(hyps), first['status'], first.get('n_inst'), round(time.time() - t0, 1), flush=True)
+    if first is None:
+        first = _prove(hyps, goal, timeout_ms, 3, want_model, False)
+        if TRACE:
+            print('   stage first', len(hyps), first['status'], first.get('n_inst'), round(time.time() - t0, 1), flush=True)
     if first['status'] == 'proved' or not fallbacks:
         return first
     # quick shot of z3's own quantifier engine (many obligations fall to it within a second)
